@@ -207,6 +207,28 @@ func c17Registry(c *Ctx) {
 				return isG && g2 == g
 			})
 			if !ok {
+				// check-and-record fused into a local function: `if claim(name) { return name }` where every `return true`
+				// of claim is preceded by the update of g
+				for _, f := range an.Facts(r) {
+					if f.Op != token.ILLEGAL || f.Neg {
+						continue
+					}
+					call, isCall := f.X.(*ssa.Call)
+					if !isCall {
+						continue
+					}
+					var cl *ssa.Function
+					for _, d := range an.Defs(call.Call.Value) {
+						if mc, isMC := d.(*ssa.MakeClosure); isMC {
+							cl, _ = mc.Fn.(*ssa.Function)
+						}
+					}
+					if cl != nil && trueReturnsUpdate(cl, g) {
+						ok = true
+					}
+				}
+			}
+			if !ok {
 				bad = "a new name is returned without being recorded in " + g.Name() + ", which the collision test reads: the same Go identifier can be handed out twice (duplicate declarations, generated models do not compile)"
 			}
 		}
@@ -391,4 +413,30 @@ func computedFrom(v, src ssa.Value, depth int, seen map[ssa.Value]bool) bool {
 		}
 	}
 	return false
+}
+
+
+// trueReturnsUpdate: every return of the boolean function cl that may yield true is preceded on all paths by a MapUpdate of global g.
+func trueReturnsUpdate(cl *ssa.Function, g *ssa.Global) bool {
+	n := 0
+	for _, r := range an.Returns(cl) {
+		if len(r.Results) != 1 {
+			return false
+		}
+		if k, isC := an.ReturnedValue(r, 0).(*ssa.Const); isC && k.Value != nil && k.Value.String() == "false" {
+			continue
+		}
+		n++
+		if !mustPassThrough(cl, r, func(in ssa.Instruction) bool {
+			mu, isMU := in.(*ssa.MapUpdate)
+			if !isMU {
+				return false
+			}
+			g2, isG := loadGlobal(mu.Map)
+			return isG && g2 == g
+		}) {
+			return false
+		}
+	}
+	return n > 0
 }
